@@ -173,112 +173,210 @@ fn c05_interchain_transfer() {
 }
 
 // ------------------------------------------------------------------------------------------------
-// C04  execute (inbound)
+// C04  execute (inbound): execute -> execute_message -> get_execute_params, each against the
+// contract of the next
 // ------------------------------------------------------------------------------------------------
+pub static mut EM_RESULT_OK: bool = false;
+/// contract stub of `execute_message` for the `execute` harness: records its arguments
+pub fn execute_message_stub(_env: &Env, source_chain: String, message_id: String, source_address: String, payload: Bytes) -> Result<(), ContractError> {
+    shim::log_internal("execute_message", Words::of(&(source_chain, message_id, source_address, payload)));
+    if kani::any() {
+        unsafe { EM_RESULT_OK = true };
+        Ok(())
+    } else {
+        Err(any_error())
+    }
+}
+
 #[kani::proof]
-#[kani::stub(crate::abi::get_message_type, get_message_type_contract)]
-#[kani::stub(crate::types::HubMessage::abi_decode, hub_decode_contract)]
-fn c04_execute() {
+#[kani::stub(InterchainTokenService::execute_message, execute_message_stub)]
+fn c04_execute_entry() {
     let env = Env::default();
     let _h = shim::fresh_host();
     let (sc, mid, sa) = (String::symbolic(), String::symbolic(), String::symbolic());
     let payload = Bytes::symbolic();
 
     <S as AxelarExecutableInterface>::execute(env.clone(), sc.clone(), mid.clone(), sa.clone(), payload.clone());
-    shim::no_dangling_abstract_content();
 
     let gateway: Option<Address> = inst().pre(&DataKey::Gateway);
-    let hub: Option<String> = inst().pre(&DataKey::ItsHubAddress);
     let ph: BytesN<32> = env.crypto().keccak256(&payload).into();
-    // --- the gateway approval is consumed first
     assert!(
-        matches!(&gateway, Some(g) if shim::n_calls() >= 1 && shim::call_is(0, g, "validate_message", &(me(&env), sc.clone(), mid.clone(), sa.clone(), ph)) && shim::call_ret::<bool>(0)),
-        "OBL C04.approval_consumed: the configured gateway consumed an approval of exactly (service, source chain, message id, source address, keccak256(payload))"
+        matches!(&gateway, Some(g) if shim::n_calls() == 2 && shim::call_is(0, g, "validate_message", &(me(&env), sc.clone(), mid.clone(), sa.clone(), ph)) && shim::call_ret::<bool>(0)),
+        "OBL C04.approval_consumed: the configured gateway consumed an approval of exactly (service, source chain, message id, source address, keccak256(payload)) — first, once"
     );
     assert!(
-        shim::call_seq(0) < pers().first_write_seq() && (shim::n_events() == 0 || shim::call_seq(0) < shim::event_seq(0)) && (shim::n_deploys() == 0 || shim::call_seq(0) < shim::deploy(0).seq),
-        "OBL C04.validated_before_effects"
+        shim::internal_call_is(1, "execute_message", &(sc.clone(), mid.clone(), sa.clone(), payload.clone())) && unsafe { EM_RESULT_OK },
+        "OBL C04.then_execute_message: the same delivery is then handed to execute_message, whose failure fails the whole call"
     );
-    assert!(sc == axelar(&env), "OBL C04.from_hub_chain: the message comes from the hub chain");
-    assert!(hub == Some(sa.clone()), "OBL C04.hub_address_checked: the message comes from the configured hub address");
-    assert!(matches!(unsafe { TYPE_OF }, Some((id, 4)) if id == payload.id), "OBL C04.receive_from_hub_only");
-    let decoded = unsafe { DECODED.clone() };
-    match decoded {
-        Some(HubMessage::ReceiveFromHub { source_chain: origin, message }) => {
-            assert!(pers().pre_has(&DataKey::TrustedChain(origin.clone())), "OBL C04.trusted_origin: the wrapped message names a currently trusted origin chain");
-            match message {
-                Message::InterchainTransfer(t) => {
-                    let cfg: Option<TokenIdConfigValue> = pers().pre(&cfg_key(&t.token_id));
-                    assert!(cfg.is_some(), "OBL C04.transfer_needs_registered_token");
-                    let c = cfg.unwrap_or(TokenIdConfigValue { token_address: Address(0), token_manager_type: TokenManagerType::LockUnlock });
-                    let c1 = shim::call(1);
-                    let recipient = Address(c1.args.w[if c.token_manager_type == TokenManagerType::LockUnlock { 1 } else { 0 }]);
-                    assert!(recipient.clone().to_xdr(&env) == t.destination_address, "OBL C04.recipient_is_decoded_destination: the credited address is the one whose XDR is the message's destination field");
-                    assert!(
-                        match c.token_manager_type {
-                            TokenManagerType::NativeInterchainToken => shim::call_is(1, &c.token_address, "mint", &(recipient.clone(), t.amount)),
-                            TokenManagerType::LockUnlock => shim::call_is(1, &c.token_address, "transfer", &(me(&env), recipient.clone(), t.amount)),
-                        },
-                        "OBL C05.inbound_credits_exact_amount: exactly the announced amount is minted (service-deployed token) or released from custody (canonical token) to the recipient, on the registered token"
-                    );
-                    assert!(
-                        shim::n_events() == 1
-                            && shim::event_is(0, &(Symbol::new(&env, "interchain_transfer_received"), origin.clone(), t.token_id, t.source_address.clone(), recipient.clone(), t.amount), &(t.data.clone(),)),
-                        "OBL C04.received_event_exact"
-                    );
-                    assert!(
-                        match &t.data {
-                            None => shim::n_calls() == 2,
-                            Some(d) => shim::n_calls() == 3 && shim::call_is(2, &recipient, "execute_with_interchain_token", &(origin.clone(), mid.clone(), t.source_address.clone(), d.clone(), t.token_id, c.token_address.clone(), t.amount)),
-                        },
-                        "OBL C04.one_effect_only: one credit; the recipient's callback only when data is present, with the same values; nothing else"
-                    );
-                    assert!(no_storage_change() && shim::n_deploys() == 0, "OBL C04.transfer_arm_frame: no registration changes");
-                    kani::cover!(t.data.is_some(), "COVER c04 transfer with data");
-                    kani::cover!(t.data.is_none() && c.token_manager_type == TokenManagerType::LockUnlock, "COVER c04 transfer unlock");
-                }
-                Message::DeployInterchainToken(d) => {
-                    assert!(!pers().pre_has(&cfg_key(&d.token_id)), "OBL C11.remote_deploy_needs_free_id: a remote deploy message for a taken id fails");
-                    assert!(!d.name.is_empty() && !d.symbol.is_empty(), "OBL C04.deploy_needs_valid_metadata");
-                    let wasm: Option<BytesN<32>> = inst().pre(&DataKey::InterchainTokenWasmHash);
-                    let dep = shim::deploy(0);
-                    let minter_word_present = dep.args.w[1] != 0;
-                    let minter_addr = Address(dep.args.w[2]);
-                    assert!(
-                        match &d.minter {
-                            None => !minter_word_present,
-                            Some(mb) => minter_word_present && minter_addr.clone().to_xdr(&env) == *mb,
-                        },
-                        "OBL C11.remote_deploy_minter_is_decoded: the designated minter is the address whose XDR is the message's minter field (none if absent)"
-                    );
-                    let minter = if minter_word_present { Some(minter_addr) } else { None };
-                    let md = TokenMetadata { name: d.name.clone(), symbol: d.symbol.clone(), decimal: d.decimals as u32 };
-                    assert!(
-                        shim::n_deploys() == 1
-                            && dep.deployer == me(&env).0
-                            && Some(BytesN::<32>([dep.salt[0], dep.salt[1], dep.salt[2], dep.salt[3], 0, 0, 0, 0])) == Some(d.token_id)
-                            && matches!(wasm, Some(w) if w.0[0] == dep.wasm[0] && w.0[1] == dep.wasm[1] && w.0[2] == dep.wasm[2] && w.0[3] == dep.wasm[3])
-                            && dep.args == Words::of(&(me(&env), minter.clone(), d.token_id, md.clone())),
-                        "OBL C11.remote_deploy_exact: one token deployed by the service at the address derived from (service, token id), from the configured code, constructed with (owner = service, designated minter, this id, the requested metadata)"
-                    );
-                    assert!(
-                        pers().post::<_, TokenIdConfigValue>(&cfg_key(&d.token_id)) == Some(TokenIdConfigValue { token_address: Address(dep.address), token_manager_type: TokenManagerType::NativeInterchainToken })
-                            && pers().changed_only(&[Words::of(&cfg_key(&d.token_id))])
-                            && inst().n_changed() == 0,
-                        "OBL C11.remote_deploy_registers_once: the id is registered to the deployed address as a service-deployed token; nothing else is written"
-                    );
-                    assert!(shim::n_calls() == 1, "OBL C04.deploy_arm_moves_no_funds");
-                    assert!(
-                        shim::n_events() == 1 && shim::event_is(0, &(Symbol::new(&env, "interchain_token_deployed"), d.token_id, Address(dep.address), d.name.clone(), d.symbol.clone(), d.decimals as u32, minter.clone()), &Vec::<Val>::new(&env)),
-                        "OBL C04.deployed_event_exact"
-                    );
-                    kani::cover!(d.minter.is_some(), "COVER c04 deploy with minter");
-                    kani::cover!(d.minter.is_none(), "COVER c04 deploy without minter");
-                }
-            }
+    assert!(no_storage_change() && shim::n_events() == 0 && shim::n_deploys() == 0, "OBL C04.entry_frame");
+    kani::cover!(true, "COVER c04 entry returned");
+}
+
+#[kani::proof]
+#[kani::stub(crate::abi::get_message_type, get_message_type_contract)]
+#[kani::stub(crate::types::HubMessage::abi_decode, hub_decode_contract)]
+fn c04_get_execute_params() {
+    let env = Env::default();
+    let _h = shim::fresh_host();
+    let sc = String::symbolic();
+    let payload = Bytes::symbolic();
+
+    let r = S::get_execute_params(&env, sc.clone(), &payload);
+    shim::no_dangling_abstract_content();
+
+    if let Ok((origin, message)) = r {
+        assert!(sc == axelar(&env), "OBL C04.from_hub_chain: the message comes from the hub chain");
+        assert!(matches!(unsafe { TYPE_OF }, Some((id, 4)) if id == payload.id), "OBL C04.receive_from_hub_only: the outer message type is ReceiveFromHub");
+        let decoded = unsafe { DECODED.clone() };
+        assert!(
+            decoded == Some(HubMessage::ReceiveFromHub { source_chain: origin.clone(), message: message.clone() }),
+            "OBL C04.params_are_the_decoded_message: origin chain and inner message are exactly what the strict decoder returned for this payload"
+        );
+        assert!(pers().pre_has(&DataKey::TrustedChain(origin.clone())), "OBL C04.trusted_origin: the wrapped message names a currently trusted origin chain");
+        assert!(shim::no_effects(), "OBL C04.params_pure");
+        kani::cover!(matches!(message, Message::InterchainTransfer(_)), "COVER c04 params transfer");
+        kani::cover!(matches!(message, Message::DeployInterchainToken(_)), "COVER c04 params deploy");
+    }
+}
+
+pub static mut GEP_KIND: u8 = 0;
+pub static mut GEP_OUT: Option<(String, Message)> = None;
+/// contract stub of `get_execute_params` (proved by c04_get_execute_params): Ok((origin, message))
+/// only for the hub chain, a ReceiveFromHub wrapper and a trusted origin; read-only
+pub fn get_execute_params_stub(env: &Env, source_chain: String, payload: &Bytes) -> Result<(String, Message), ContractError> {
+    shim::log_internal("get_execute_params", Words::of(&(source_chain.clone(), payload.clone())));
+    if !kani::any::<bool>() {
+        return Err(any_error());
+    }
+    kani::assume(source_chain == axelar(env));
+    let origin = String::symbolic();
+    kani::assume(pers().post_has(&DataKey::TrustedChain(origin.clone())));
+    let message = if unsafe { GEP_KIND } == 0 {
+        let amount: i128 = kani::any();
+        kani::assume(amount >= 0);
+        let data = Option::<Bytes>::symbolic();
+        kani::assume(!matches!(&data, Some(d) if d.is_empty()));
+        Message::InterchainTransfer(TTransfer { token_id: BytesN::symbolic(), source_address: Bytes::symbolic(), destination_address: Bytes::symbolic(), amount, data })
+    } else {
+        let minter = Option::<Bytes>::symbolic();
+        kani::assume(!matches!(&minter, Some(d) if d.is_empty()));
+        Message::DeployInterchainToken(TDeploy { token_id: BytesN::symbolic(), name: String::symbolic(), symbol: String::symbolic(), decimals: kani::any(), minter })
+    };
+    unsafe { GEP_OUT = Some((origin.clone(), message.clone())) };
+    Ok((origin, message))
+}
+
+#[kani::proof]
+#[kani::stub(InterchainTokenService::get_execute_params, get_execute_params_stub)]
+fn c04_execute_message_transfer() {
+    let env = Env::default();
+    let _h = shim::fresh_host();
+    unsafe { GEP_KIND = 0 };
+    let (sc, mid, sa) = (String::symbolic(), String::symbolic(), String::symbolic());
+    let payload = Bytes::symbolic();
+
+    let r = S::execute_message(&env, sc.clone(), mid.clone(), sa.clone(), payload.clone());
+
+    if r.is_ok() {
+        let hub: Option<String> = inst().pre(&DataKey::ItsHubAddress);
+        assert!(shim::internal_call_is(0, "get_execute_params", &(sc.clone(), payload.clone())), "OBL C04.params_from_this_delivery");
+        assert!(hub == Some(sa.clone()), "OBL C04.hub_address_checked: the message comes from the configured hub address");
+        let (origin, message) = match unsafe { GEP_OUT.clone() } {
+            Some(x) => x,
+            None => (String { id: 0 }, symbolic_message()),
+        };
+        assert!(unsafe { GEP_OUT.is_some() }, "OBL C04.only_validated_params");
+        if let Message::InterchainTransfer(t) = message {
+            let cfg: Option<TokenIdConfigValue> = pers().pre(&cfg_key(&t.token_id));
+            assert!(cfg.is_some(), "OBL C04.transfer_needs_registered_token");
+            let c = cfg.unwrap_or(TokenIdConfigValue { token_address: Address(0), token_manager_type: TokenManagerType::LockUnlock });
+            let c1 = shim::call(1);
+            let recipient = Address(c1.args.w[if c.token_manager_type == TokenManagerType::LockUnlock { 1 } else { 0 }]);
+            assert!(recipient.clone().to_xdr(&env) == t.destination_address, "OBL C04.recipient_is_decoded_destination: the credited address is the one whose XDR is the message's destination field");
+            assert!(
+                match c.token_manager_type {
+                    TokenManagerType::NativeInterchainToken => shim::call_is(1, &c.token_address, "mint", &(recipient.clone(), t.amount)),
+                    TokenManagerType::LockUnlock => shim::call_is(1, &c.token_address, "transfer", &(me(&env), recipient.clone(), t.amount)),
+                },
+                "OBL C05.inbound_credits_exact_amount: exactly the announced amount is minted (service-deployed token) or released from custody (canonical token) to the recipient, on the registered token"
+            );
+            assert!(
+                shim::n_events() == 1
+                    && shim::event_is(0, &(Symbol::new(&env, "interchain_transfer_received"), origin.clone(), t.token_id, t.source_address.clone(), recipient.clone(), t.amount), &(t.data.clone(),)),
+                "OBL C04.received_event_exact"
+            );
+            assert!(
+                match &t.data {
+                    None => shim::n_calls() == 2,
+                    Some(d) => shim::n_calls() == 3 && shim::call_is(2, &recipient, "execute_with_interchain_token", &(origin.clone(), mid.clone(), t.source_address.clone(), d.clone(), t.token_id, c.token_address.clone(), t.amount)),
+                },
+                "OBL C04.one_effect_only: one credit; the recipient's callback only when data is present, with the same values; nothing else"
+            );
+            assert!(no_storage_change() && shim::n_deploys() == 0, "OBL C04.transfer_arm_frame: no registration changes");
+            kani::cover!(t.data.is_some(), "COVER c04 transfer with data");
+            kani::cover!(t.data.is_none() && c.token_manager_type == TokenManagerType::LockUnlock, "COVER c04 transfer unlock");
+            kani::cover!(c.token_manager_type == TokenManagerType::NativeInterchainToken, "COVER c04 transfer mint");
         }
-        _ => {
-            assert!(false, "OBL C04.decoded_receive_from_hub: execute returns only for a payload that decodes as ReceiveFromHub");
+    }
+}
+
+#[kani::proof]
+#[kani::stub(InterchainTokenService::get_execute_params, get_execute_params_stub)]
+fn c04_execute_message_deploy() {
+    let env = Env::default();
+    let _h = shim::fresh_host();
+    unsafe { GEP_KIND = 1 };
+    let (sc, mid, sa) = (String::symbolic(), String::symbolic(), String::symbolic());
+    let payload = Bytes::symbolic();
+
+    let r = S::execute_message(&env, sc.clone(), mid.clone(), sa.clone(), payload.clone());
+
+    if r.is_ok() {
+        let hub: Option<String> = inst().pre(&DataKey::ItsHubAddress);
+        assert!(shim::internal_call_is(0, "get_execute_params", &(sc.clone(), payload.clone())), "OBL C04.params_from_this_delivery");
+        assert!(hub == Some(sa.clone()), "OBL C04.hub_address_checked: the message comes from the configured hub address");
+        assert!(unsafe { GEP_OUT.is_some() }, "OBL C04.only_validated_params");
+        let (_origin, message) = match unsafe { GEP_OUT.clone() } {
+            Some(x) => x,
+            None => (String { id: 0 }, symbolic_message()),
+        };
+        if let Message::DeployInterchainToken(d) = message {
+            assert!(!pers().pre_has(&cfg_key(&d.token_id)), "OBL C11.remote_deploy_needs_free_id: a remote deploy message for a taken id fails");
+            assert!(!d.name.is_empty() && !d.symbol.is_empty(), "OBL C04.deploy_needs_valid_metadata");
+            let wasm: Option<BytesN<32>> = inst().pre(&DataKey::InterchainTokenWasmHash);
+            let dep = shim::deploy(0);
+            let minter_word_present = dep.args.w[1] != 0;
+            let minter_addr = Address(dep.args.w[2]);
+            assert!(
+                match &d.minter {
+                    None => !minter_word_present,
+                    Some(mb) => minter_word_present && minter_addr.clone().to_xdr(&env) == *mb,
+                },
+                "OBL C11.remote_deploy_minter_is_decoded: the designated minter is the address whose XDR is the message's minter field (none if absent)"
+            );
+            let minter = if minter_word_present { Some(minter_addr) } else { None };
+            let md = TokenMetadata { name: d.name.clone(), symbol: d.symbol.clone(), decimal: d.decimals as u32 };
+            assert!(
+                shim::n_deploys() == 1
+                    && dep.deployer == me(&env).0
+                    && BytesN::<32>([dep.salt[0], dep.salt[1], dep.salt[2], dep.salt[3], 0, 0, 0, 0]) == d.token_id
+                    && matches!(wasm, Some(w) if w.0[0] == dep.wasm[0] && w.0[1] == dep.wasm[1] && w.0[2] == dep.wasm[2] && w.0[3] == dep.wasm[3])
+                    && dep.args == Words::of(&(me(&env), minter.clone(), d.token_id, md.clone())),
+                "OBL C11.remote_deploy_exact: one token deployed by the service at the address derived from (service, token id), from the configured code, constructed with (owner = service, designated minter, this id, the requested metadata)"
+            );
+            assert!(
+                pers().post::<_, TokenIdConfigValue>(&cfg_key(&d.token_id)) == Some(TokenIdConfigValue { token_address: Address(dep.address), token_manager_type: TokenManagerType::NativeInterchainToken })
+                    && pers().changed_only(&[Words::of(&cfg_key(&d.token_id))])
+                    && inst().n_changed() == 0,
+                "OBL C11.remote_deploy_registers_once: the id is registered to the deployed address as a service-deployed token; nothing else is written"
+            );
+            assert!(shim::n_calls() == 1, "OBL C04.deploy_arm_moves_no_funds");
+            assert!(
+                shim::n_events() == 1 && shim::event_is(0, &(Symbol::new(&env, "interchain_token_deployed"), d.token_id, Address(dep.address), d.name.clone(), d.symbol.clone(), d.decimals as u32, minter.clone()), &Vec::<Val>::new(&env)),
+                "OBL C04.deployed_event_exact"
+            );
+            kani::cover!(d.minter.is_some(), "COVER c04 deploy with minter");
+            kani::cover!(d.minter.is_none(), "COVER c04 deploy without minter");
         }
     }
 }
